@@ -43,7 +43,8 @@ theorem tie_footer_writes :
     Generated.C15.readerFooterReads = [("Uint64", 9, 17), ("Uint32", 0, 4), ("Uint32", 4, 8)] ∧
     Generated.C15.readerSortedCheck = "[]int{ 0, posOfOffset, posOfKeys, footerStart, }" :=
   ⟨rfl, rfl, rfl⟩
-theorem tie_min_width (v : Nat) : Table.minWidth v = Generated.C15.uint32MinWidth v := rfl
+/-- the offset table's width rule (C14's model of pkg/encoding, used by the table model) is the source's -/
+theorem tie_min_width (v : Nat) : FixedOffset.uint32MinWidth v = Generated.C15.uint32MinWidth v := rfl
 /-- the comparisons and statement orders the models mirror, as they stand in the source -/
 theorem tie_builder_source :
     Generated.C15.ensureIncreasingConds = ["b.first", "key <= b.maxKey"] ∧
@@ -87,6 +88,27 @@ theorem tie_version_source :
     Generated.C15.snapshotLoadCalls =
       ["version.FindFiles", "fileMeta.GetFileNumber", "Table", "cache.GetReader", "reader.Get", "errors.Is", "loader"] :=
   ⟨rfl, rfl⟩
+
+/-- `FindFiles` ranges over every level and every file of the level and never leaves a loop early;
+a level is a plain set of files (no cached key range); `Load` skips a file only on
+`ErrKeyNotExist` (`continue`) — the shape `findFiles`/`loadFiles`/`findReaders` model -/
+theorem tie_findfiles_every_level :
+    Generated.C15.findFilesLoops = ["v.levels", "level.getFiles()"] ∧
+    Generated.C15.findFilesJumps = [] ∧
+    Generated.C15.findFilesStmts =
+      ["var files []*FileMeta",
+       "for _, level := range v.levels { for _, file := range level.getFiles() { if key >= file.GetMinKey() && key <= file.GetMaxKey() { files = append(files, file) } } }",
+       "return files"] ∧
+    Generated.C15.levelFields = ["files map[table.FileNumber]*FileMeta"] ∧
+    Generated.C15.levelGetFilesStmts =
+      ["var values []*FileMeta", "for _, v := range l.files { values = append(values, v) }", "return values"] ∧
+    Generated.C15.snapshotLoadJumps =
+      ["err != nil => return err", "errors.Is(err, table.ErrKeyNotExist) => continue",
+       "err != nil => return err", "err := loader(value); err != nil => return err"] ∧
+    Generated.C15.snapshotLoadLoops = ["files"] ∧
+    Generated.C15.snapshotFindReadersJumps = ["err != nil => return nil, err"] ∧
+    Generated.C15.snapshotFindReadersLoops = ["files"] :=
+  ⟨rfl, rfl, rfl, rfl, rfl, rfl, rfl, rfl, rfl⟩
 
 /-! ## table files -/
 
@@ -138,6 +160,52 @@ theorem table_meta (K : KeySetOps B) (hK : K.Lawful) (items : List Put) :
   intro e he
   exact h4 (by intro h; rw [h] at he; simp at he) e he
 
+/-- **table_file_layout.** The finished file, byte for byte: the kept values back to back, then
+the fixed-width offset table of their start offsets exactly as `FixedOffsetEncoder.MarshalBinary`
+writes it (C14's model; `Props.C14.fixedoffset_roundtrip` / `fixedoffset_getBlock_correct` are
+the codec facts `table_get` rests on), then the marshalled key bitmap, then the footer
+`posOfOffset(4) posOfKeys(4) version(1) magic(8)`. -/
+theorem table_file_layout (K : KeySetOps B) (hK : K.Lawful) (items : List Put) (hne : items ≠ []) :
+    ∃ b, Builder.run K (Builder.init K) (items.flatMap Put.ops) = some b ∧
+      b.close K = some
+        (((accepted (items.map Put.entry)).map (·.2)).flatten ++
+         (FixedOffset.encOf true (startsFrom 0 ((accepted (items.map Put.entry)).map (·.2)))).marshal ++
+         K.marshal (((accepted (items.map Put.entry)).map (·.1)).foldl K.add K.empty) ++
+         footer ((accepted (items.map Put.entry)).map (·.2)).flatten.length
+           (((accepted (items.map Put.entry)).map (·.2)).flatten.length +
+             (FixedOffset.encOf true (startsFrom 0 ((accepted (items.map Put.entry)).map (·.2)))).marshal.length)) := by
+  obtain ⟨b, hrun, hinv, _⟩ := build_ok hK items
+  exact ⟨b, hrun, close_layout hinv hK (accepted_ne_nil _ (by simpa using hne))⟩
+
+/-- **footer_roundtrip.** The 17 footer bytes read back as `initialize` reads them: both positions
+(modulo 2^32 — `Close` stores `uint32(pos)`, which is why `SizeOK` is assumed elsewhere), the
+version byte `version0`, the magic number; and a file whose magic does not match is refused. -/
+theorem footer_roundtrip (p1 p2 : Nat) :
+    (footer p1 p2).length = sstFileFooterSize ∧
+    leVal ((footer p1 p2).take 4) = p1 % 4294967296 ∧
+    leVal (((footer p1 p2).drop 4).take 4) = p2 % 4294967296 ∧
+    (footer p1 p2)[8]? = some version0 ∧
+    leVal (((footer p1 p2).drop magicNumberAtFooter).take 8) = magicNumberOffsetFile ∧
+    (∀ (K : KeySetOps B) (full : Bytes),
+      leVal ((full.drop (full.length - sstFileFooterSize + magicNumberAtFooter)).take 8) ≠ magicNumberOffsetFile →
+      Reader.open K full = none) := by
+  obtain ⟨h1, h2, h3, h4, h5⟩ := footer_fields p1 p2
+  exact ⟨h1, h2, h3, h4, h5, fun K full h => open_refuses_bad_magic K full h⟩
+
+/-- **rank_at_container_boundaries.** What the lookup needs from `Rank`, spelled out per 65536-key
+container: `Rank(k)` = (members in lower containers) + (members of k's container up to k), where
+the first summand counts members strictly below the container's first possible key
+`(k/65536)·65536`; it equals `Rank` of that key **minus one when that key is itself stored**
+(`Neg.rank_of_container_start_is_not_the_base`). With the contract `rank_eq` this is a theorem,
+not an extra assumption; `table_get` covers keys that are exact multiples of 65536 like any other. -/
+theorem rank_at_container_boundaries (K : KeySetOps B) (hK : K.Lawful) (b : B) (k : Nat) :
+    K.rank b k =
+      (K.toList b).countP (fun x => decide (x < k / 65536 * 65536)) +
+      (K.toList b).countP (fun x => decide (x / 65536 = k / 65536 ∧ x % 65536 ≤ k % 65536)) ∧
+    (K.toList b).countP (fun x => decide (x < k / 65536 * 65536)) +
+      (K.toList b).countP (fun x => decide (x = k / 65536 * 65536)) = K.rank b (k / 65536 * 65536) :=
+  ⟨rank_container_split hK b k, container_base_eq hK b k⟩
+
 /-- **reject_out_of_order (state).** In any state reached by well-formed use, `Add` of a key that
 is not above the last kept key returns the state *unchanged*; a stream write of such a key
 (`Prepare; Write*; Commit`) leaves every byte, offset, key, min/max and count unchanged. -/
@@ -146,7 +214,7 @@ theorem reject_out_of_order (K : KeySetOps B) (hK : K.Lawful) (items : List Put)
     ∃ b, Builder.run K (Builder.init K) (items.flatMap Put.ops) = some b ∧
       b.add K k v = some b ∧
       ∃ b', Builder.run K b (Put.stream k chunks).ops = some b' ∧
-        b'.written = b.written ∧ b'.offsets = b.offsets ∧ b'.keys = b.keys ∧ b'.offMax = b.offMax ∧
+        b'.written = b.written ∧ b'.offset = b.offset ∧ b'.keys = b.keys ∧
         b'.minKey = b.minKey ∧ b'.maxKey = b.maxKey ∧ b'.first = b.first ∧ b'.size = b.size := by
   obtain ⟨b, hrun, hinv, _⟩ := build_ok hK items
   obtain ⟨l, hl, hkl⟩ := hbad
@@ -156,7 +224,7 @@ theorem reject_out_of_order (K : KeySetOps B) (hK : K.Lawful) (items : List Put)
     cases hb : b.ensureIncreasingKey k with
     | false => rfl
     | true => exact absurd ((ensure_iff hinv.pre k).mp hb) hstale
-  refine ⟨b, hrun, by simp [Builder.add, he], b.prepare k, ?_, rfl, rfl, rfl, rfl, rfl, rfl, rfl, rfl⟩
+  refine ⟨b, hrun, by simp [Builder.add, he], b.prepare k, ?_, rfl, rfl, rfl, rfl, rfl, rfl, rfl⟩
   have hbk : (b.prepare k).sw.badKey = true := by simp [Builder.prepare, he]
   simp only [Put.ops, Builder.run, Builder.step]
   rw [run_writes_closed chunks (b.prepare k) [Op.commit] hbk]
@@ -321,6 +389,12 @@ theorem merge_order_among_equal_keys (its : List Input) (hs : ∀ it ∈ its, So
 
 /-! ## Version.FindFiles / Snapshot.Load -/
 
+/-- **findfiles_every_level.** `FindFiles(key)` returns exactly the files, of whatever level and
+position inside the level, whose recorded [minKey, maxKey] contains the key. -/
+theorem findfiles_every_level (levels : List (List FileMeta)) (key : Nat) (f : FileMeta) :
+    f ∈ findFiles levels key ↔ f ∈ levels.flatten ∧ f.minKey ≤ key ∧ key ≤ f.maxKey :=
+  mem_findFiles levels key f
+
 /-- **load_all_values.** In a version whose files (any number of levels, any order inside a
 level) are tables written by the builder and recorded with the builder's MinKey/MaxKey,
 `Load(key)` hands the loader the value of `key` from *every* file that holds the key — one value
@@ -347,6 +421,35 @@ theorem load_all_values (K : KeySetOps B) (hK : K.Lawful) (fs : Nat → Option B
   have he' : e ∈ accepted ((src f).map Put.entry) := he
   rw [hmin, hmax]
   exact (meta_of_inv hK hinv).2.2.2 (by intro h; rw [h] at he'; simp at he') e he'
+
+/-- **find_readers_all.** Under the same hypotheses `FindReaders(key)` opens a reader for every
+file `FindFiles` returns (so for every file holding the key) and does not fail. -/
+theorem find_readers_all (K : KeySetOps B) (hK : K.Lawful) (fs : Nat → Option Bytes)
+    (levels : List (List FileMeta)) (src : FileMeta → List Put) (key : Nat)
+    (hbuilt : ∀ f ∈ levels.flatten, src f ≠ [] ∧ (∀ it ∈ src f, it.entry.1 < 4294967296) ∧
+      SizeOK (accepted ((src f).map Put.entry)) ∧
+      ∃ b, Builder.run K (Builder.init K) ((src f).flatMap Put.ops) = some b ∧
+        fs f.fileNumber = b.close K ∧ f.minKey = b.minKey ∧ f.maxKey = b.maxKey) :
+    findReaders K fs levels key = some ((findFiles levels key).map (·.fileNumber)) ∧
+    (∀ f ∈ levels.flatten, (∃ e ∈ accepted ((src f).map Put.entry), e.1 = key) → f ∈ findFiles levels key) := by
+  have hok : VersionOK K fs levels.flatten (fun f => accepted ((src f).map Put.entry)) := by
+    intro f hf
+    obtain ⟨hne, hkeys, hsz, b, hrun, hfile, hmin, hmax⟩ := hbuilt f hf
+    obtain ⟨b', hrun', hinv, hrest⟩ := build_ok hK (src f)
+    have hb : b' = b := by rw [hrun] at hrun'; exact (Option.some.inj hrun').symm
+    subst hb
+    obtain ⟨file, r, hclose, hopen, hrepr⟩ := hrest hne hkeys hsz
+    refine ⟨file, r, by rw [hfile, hclose], hopen, hrepr, ?_⟩
+    intro e he
+    have he' : e ∈ accepted ((src f).map Put.entry) := he
+    rw [hmin, hmax]
+    exact (meta_of_inv hK hinv).2.2.2 (by intro h; rw [h] at he'; simp at he') e he'
+  refine ⟨findReaders_spec fs levels _ key hok, ?_⟩
+  intro f hf ⟨e, he, hek⟩
+  obtain ⟨_, _, _, _, _, hrange⟩ := hok f hf
+  have := hrange e he
+  rw [hek] at this
+  exact (mem_findFiles levels key f).mpr ⟨hf, this⟩
 
 /-! ## the hypotheses are satisfiable (non-vacuity) -/
 
@@ -396,6 +499,12 @@ theorem abandoned_stream_write_leaks :
 theorem commit_after_interleaved_add_panics :
     (Builder.run listKeySet (Builder.init listKeySet)
         [Op.prepare 5, Op.write [9], Op.add 7 [3], Op.commit]).isNone = true := by decide
+
+/-- the container base is **not** `Rank` of the container's first key when that key is stored:
+members [65536, 65537]; for k = 65537 the lower containers hold 0 keys, `Rank(65536)` = 1 -/
+theorem rank_of_container_start_is_not_the_base :
+    listKeySet.rank [65537, 65536] 65536 = 1 ∧
+    ([65536, 65537].countP (fun x => decide (x < 65537 / 65536 * 65536))) = 0 := by decide
 
 end Neg
 
